@@ -46,6 +46,8 @@ type fakeStore struct {
 	asked    []string // every secret the store was ASKED to keep, whether it then answered ok or not
 	devKind  string   // environment answer: the request kind that deviates (read | write | delete | list), "" = none
 	devMode  string   // 403 | 404 | 500 | malformed | timeout
+	// hook (part "faults"): called for EVERY request after it was recorded, with the lock held; true = the hook answered
+	hook func(f *fakeStore, w nethttp.ResponseWriter, r *nethttp.Request, clean string, body []byte) bool
 }
 
 func (f *fakeStore) deviate(kind, mode string) {
@@ -100,6 +102,9 @@ func (f *fakeStore) serve(w nethttp.ResponseWriter, r *nethttp.Request) {
 			}
 		}
 	}
+	if f.hook != nil && f.hook(f, w, r, clean, body) {
+		return
+	}
 	if clean != "/health" && clean != "/v1/auth/token/lookup-self" && f.devKind != "" && requestKind(r, clean) == f.devKind {
 		switch f.devMode {
 		case "403":
@@ -126,6 +131,11 @@ func (f *fakeStore) serve(w nethttp.ResponseWriter, r *nethttp.Request) {
 		}
 		return
 	}
+	f.handle(w, r, clean, body)
+}
+
+// handle is the store's normal behaviour (called with the lock held).
+func (f *fakeStore) handle(w nethttp.ResponseWriter, r *nethttp.Request, clean string, body []byte) {
 	writeJSON := func(code int, v any) {
 		w.Header().Set("Content-Type", "application/json")
 		w.WriteHeader(code)
